@@ -39,7 +39,7 @@ ENTRIES = {
             "stated functions of the means over all rows; range theorems for binary (sigma into (0,1)) and continuous "
             "(generated unit map / back-map, round trip, clip distance) outcomes; instantiated at the reals with Mathlib's "
             "exp/log. Differential check on the guarded probe's arrays (Float model vs Qstar arrays, estimates, SEs, CIs) and "
-            "direct evaluation of the score sums / ranges on the real arrays, incl. cross-fit per split.",
+            "direct evaluation of the score sums / ranges on the real arrays, incl. cross-fit per split. TMLE.fit (clever covariates to every reported estimate, SE, limit) and crossfit.targeting_step (per row of a split) are regenerated from /repo on every run and proved equal to the model (Props/C03_Gen).",
             "The fluctuation GLM is assumed to solve its score equations (measured on a reference fit, 1e-7*n); floating "
             "point is outside the theorems ('to numerical precision' = exact identity + measured residual).",
             "Lean 4 proof + translator (unit maps) + probe-based differential correspondence", "DESIGN.md §6 C03"),
@@ -56,13 +56,13 @@ ENTRIES = {
             "(sum of squares /(m-1)/n >= 0), the cross-fit pooling rule (>= 0, equals the single value when partitions "
             "agree) and the saturated-MSM sandwich; known findings F12, F15, F16 are carried as a proved _partial statement "
             "plus a kernel-checked refutation of the full one. Differential + direct checks over a 33-point alpha grid for "
-            "every calculator, frame class, AIPTW, TMLE, StochasticTMLE, IPTW (fixed 95%) and the four cross-fit classes.",
+            "every calculator, frame class, AIPTW, TMLE, StochasticTMLE, IPTW (fixed 95%) and the four cross-fit classes. The influence values of crossfit.tmle_calculator (per measure), the ratio variance of aipw_calculator and the pooled term of calculate_joint_estimate are regenerated on every run and proved equal to the model's formulas, including the two known-finding formulas (Props/C06_Gen).",
             "norm.ppf is a parameter with two assumed properties (monotone grid check each run); exp/log/sqrt laws "
             "instantiated at the reals; weighted AIPTW reports NaN SE (judged for coherent NaN only).",
             "Lean 4 proof over translated source + differential correspondence", "DESIGN.md §6 C06"),
     'C07': ("Lean theorems on the definitions generated from zepid/calc/utils.py (textbook formulas, rejection iff a "
             "count is non-positive, swap/transpose laws) and on a hand model of the data-frame classes (cross-tab by "
-            "masks, missing counters, one count-function call per level); generated code is re-translated every run and "
+            "masks, missing counters, one count-function call per level); the cross-tabulation statements and the keyword wiring of the count-function calls of the six fit methods are themselves regenerated from zepid/base.py on every run and proved equal to that model (Props/C07_Frames); generated code is re-translated every run and "
             "executed against the Python it came from.",
             "norm.ppf enters as a parameter (table entry supplied by scipy).",
             "Lean 4 proof over translated source + differential correspondence", "DESIGN.md §6 C07"),    'C08': ("Lean theorems on the shared models: every estimator model (std, hajek, gformula, aipw, aipw variance, ipsw, gtransport, "
@@ -119,7 +119,7 @@ ENTRIES = {
             "influence any of the three (map-invariance theorem). Differential check on the implementation's fitted "
             "values, exact closed form, junk-outcome variant.",
             "GLM fits assumed to solve their score equations (measured).",
-            "Lean 4 proof + translator + differential correspondence", "DESIGN.md §6 C16"),    'C17': ("Lean theorems: probability_bounds' accept/reject table in the code's branch order; the result is the elementwise clip (new list, same length), lands in [lo, hi], is idempotent and the identity on values inside; an unreached bound is a no-op for the six estimator use-site models; weights at clipped probabilities are bounded by 1/lo resp. 1/(1-hi). Container sweep with before/after snapshots (no mutation, no shared memory), 55 bound forms, every estimator site run unbounded / unreached / reached.",
+            "Lean 4 proof + translator + differential correspondence", "DESIGN.md §6 C16"),    'C17': ("Lean theorems: probability_bounds' accept/reject table in the code's branch order; the result is the elementwise clip (new list, same length), lands in [lo, hi], is idempotent and the identity on values inside; an unreached bound is a no-op for the six estimator use-site models; weights at clipped probabilities are bounded by 1/lo resp. 1/(1-hi). probability_bounds itself is regenerated from its source on every run (per element) and proved equal to the model's validation + clip for the float and the pair branch (Props/C17_Gen). Container sweep with before/after snapshots (no mutation, no shared memory), 55 bound forms, every estimator site run unbounded / unreached / reached.",
             "'Input untouched', container types and read-only buffers are Python aliasing: decided on the real code by gate D, not by a theorem.",
             'Lean 4 proof + differential correspondence', 'DESIGN.md §6 C17'),
     'C18': ("Lean theorems for every finite graph, node/arrow order and op sequence: executable reachability = reflexive-"
